@@ -35,6 +35,10 @@ type Entry struct {
 	Set      map[string]struct{}
 	Z        map[string]float64
 	Deadline int64 // unix milliseconds; 0 = no deadline
+	// DeadlineAlt, when non-zero, is a second deadline the specification allows for this entry (the result of
+	// a ...STORE command written over a live key that had a deadline: no source says whether the replaced key's
+	// deadline goes away with it or stays with the name). The engine resolves it by adopting the observed one.
+	DeadlineAlt int64
 }
 
 func (e *Entry) Clone() *Entry {
@@ -204,6 +208,14 @@ func (m *Model) Keys(i int) []string {
 func (m *Model) set(key string, e *Entry) {
 	m.db()[key] = e
 	m.touch(key)
+}
+
+// setStore stores the result of a ...STORE command under key (see Entry.DeadlineAlt).
+func (m *Model) setStore(key string, e *Entry) {
+	if old := m.Get(key); old != nil && old.Deadline > 0 {
+		e.DeadlineAlt = old.Deadline
+	}
+	m.set(key, e)
 }
 
 func (m *Model) del(key string) {
